@@ -29,7 +29,93 @@ func checkC10(P *Prog, r *Result) {
 	P.checkPathWriters(r)
 	P.checkSanitizeAgreement(r)
 	P.checkTagReachesNested(r, "C10/tag-reaches-nested")
+	P.checkPathRender(r)
 	_ = R
+}
+
+// checkPathRender: the path string is the chain of segments joined by '.', with slice positions
+// ("[i]") attached directly. PathBuilder.String depends on each segment only through its class (empty /
+// starts with '[' / other), so it is interpreted abstractly (absinterp.go) on every vector of classes
+// up to length 4 and its output compared with the specification: a '.' before segment i iff i > 0, the
+// previous segment is not the empty root and segment i is a key (not a position). Empty segments other
+// than the root (a `zog:""` tag) are outside the statement and not compared.
+func (P *Prog) checkPathRender(r *Result) {
+	fn := P.fn("(*zog/internals.PathBuilder).String")
+	if fn == nil {
+		r.broken("anchor PathBuilder.String not found")
+		return
+	}
+	r.sawFunc(fname(fn))
+	names := map[segClass]string{scEmpty: "\"\"", scBracket: "[i]", scOther: "key"}
+	var vectors [][]segClass
+	var gen func(cur []segClass, n int)
+	gen = func(cur []segClass, n int) {
+		vectors = append(vectors, append([]segClass{}, cur...))
+		if n == 0 {
+			return
+		}
+		for _, c := range []segClass{scEmpty, scBracket, scOther} {
+			gen(append(cur, c), n-1)
+		}
+	}
+	gen(nil, 4)
+	nCompared, nSkipped := 0, 0
+	var problems []string
+	for _, vec := range vectors {
+		claimed := true
+		for i, c := range vec {
+			if c == scEmpty && i > 0 {
+				claimed = false
+			}
+		}
+		if !claimed {
+			nSkipped++
+			continue
+		}
+		ai := &absInterp{segs: vec, env: map[ssa.Value]absVal{}, cells: map[ssa.Value]absVal{},
+			segsOf: func(v ssa.Value) bool { return cv(v) == ssa.Value(fn.Params[0]) }}
+		ok := ai.run(fn)
+		var desc []string
+		for _, c := range vec {
+			desc = append(desc, names[c])
+		}
+		label := "[" + strings.Join(desc, ", ") + "]"
+		if !ok {
+			why := ai.problem
+			if ai.panics != "" {
+				why = "panics: " + ai.panics
+			}
+			if ai.problem != "" {
+				r.undecided("C10/path-render", fname(fn), P.pos(fn.Pos()), "PathBuilder.String is outside the abstraction's vocabulary: "+why)
+				return
+			}
+			problems = append(problems, fmt.Sprintf("segments %s: %s", label, why))
+			continue
+		}
+		var want []string
+		for i, c := range vec {
+			if c == scEmpty {
+				continue
+			}
+			if i > 0 && vec[i-1] != scEmpty && c == scOther {
+				want = append(want, `"."`)
+			}
+			want = append(want, fmt.Sprintf("seg%d", i))
+		}
+		nCompared++
+		if strings.Join(ai.out, " ") != strings.Join(want, " ") {
+			problems = append(problems, fmt.Sprintf("segments %s are rendered as %v, expected %v", label, ai.out, want))
+		}
+	}
+	if len(problems) > 0 {
+		if len(problems) > 6 {
+			problems = append(problems[:6], fmt.Sprintf("... and %d more", len(problems)-6))
+		}
+		r.bad("C10/path-render", fname(fn), P.pos(fn.Pos()), "the rendered path is not the segments joined by '.', positions attached directly: "+strings.Join(problems, "; "))
+	} else {
+		r.ok("C10/path-render", fname(fn), P.pos(fn.Pos()), fmt.Sprintf("%d class vectors (root / key / position, length <= 4) rendered as specified; %d vectors with an empty non-root segment not compared", nCompared, nSkipped))
+	}
+	r.floor("C10/path-render", 1)
 }
 
 func (P *Prog) checkAddShape(r *Result) {
